@@ -273,7 +273,13 @@ impl Prop for C06 {
                     if let Ok(j) = parse_json(text.as_bytes()) {
                         if let Ok(false) = judge(&case.schema, &sec, &j, ctx) {
                             let why = why_invalid(&case.schema, &j);
-                            let key = classify(&why);
+                            // known finding: a declared name that begins with a control character has two plain-JSON
+                            // spellings (\n and \u000a); only the one the engine emits is "taken"
+                            let key = if text.starts_with("{\"\\u000a") || text.starts_with("{\"\\u0009") {
+                                "C06/declared-control-character-key-respelt-escapes-its-schema".to_string()
+                            } else {
+                                classify(&why)
+                            };
                             ctx.fail(&key, || format!("schema {}: the engine admits {:?} (key re-spelt with an escape) but it does not validate: {}", stxt, text, why))?;
                         }
                     }
@@ -367,7 +373,8 @@ fn respell_with_values(j: &J) -> Vec<String> {
     if let J::Obj(members) = j {
         if let Some((k, v)) = members.first() {
             if let Some(c) = k.chars().next() {
-                if c.is_ascii_alphanumeric() {
+                // a control character has a short escape and a \u00XX escape, both plain JSON
+                if c.is_ascii_alphanumeric() || c == '\n' || c == '\t' {
                     let esc_key = format!("\"\\u{:04x}{}\"", c as u32, &serde_json::to_string(&k[1..]).unwrap().trim_matches('"'));
                     let rest: Vec<String> = members[1..].iter().map(|(k2, v2)| format!("{}:{}", serde_json::to_string(k2).unwrap(), v2.to_compact())).collect();
                     for alt in [v.to_compact(), "\"x\"".to_string(), "0".to_string(), "null".to_string(), "true".to_string(), "[]".to_string(), "{}".to_string(), "1.5".to_string()] {
